@@ -161,7 +161,7 @@ func init() {
 		}
 		spec := &mc.Spec{
 			Level: "exploration",
-			Rule: "Open: every batch of length 0…maxLen over 20 item classes (new file ± MkdirAll, missing parent, existing regular file read-only / write+truncate / read-write, planted symlink to a regular file / to a host file / dangling with O_CREAT, FIFO read and write, socket, directory, MkdirAll blocked by a planted file) on a real container whose tmpfs is prepared from the host side; plus batches of 253 and 254 successes; plus the flag matrix: every planted non-regular kind (FIFO, directory, socket, three symlink kinds) × access mode × 10 extra flag words (O_NOFOLLOW, O_NONBLOCK, O_DIRECTORY, O_PATH and combinations), each followed by an ordinary item; plus items whose path cannot be looked at (parent is a planted regular file, a link loop, a name longer than 255 bytes; with and without MkdirAll) placed before, between and after two ordinary items; " +
+			Rule: "Open: every batch of length 0…maxLen over 20 item classes (new file ± MkdirAll, missing parent, existing regular file read-only / write+truncate / read-write, planted symlink to a regular file / to a host file / dangling with O_CREAT, FIFO read and write, socket, directory, MkdirAll blocked by a planted file) on a real container whose tmpfs is prepared from the host side; plus batches of 253 and 254 successes; plus batches received while descriptor 0, 1 or 2 of the host process is free (the reply's first descriptor gets that number); plus the flag matrix: every planted non-regular kind (FIFO, directory, socket, three symlink kinds) × access mode × 10 extra flag words (O_NOFOLLOW, O_NONBLOCK, O_DIRECTORY, O_PATH and combinations), each followed by an ordinary item; plus items whose path cannot be looked at (parent is a planted regular file, a link loop, a name longer than 255 bytes; with and without MkdirAll) placed before, between and after two ordinary items; " +
 				"Symlink: every batch ≤ maxLen over {new, existing path, missing parent}; Delete: file, empty dir, non-empty dir, missing, planted symlink. Oracle: len(results)=len(batch); result k is an error iff item k's class must fail; a returned file k has the (dev, ino) of the object at path k seen from the host, the requested access mode and close-on-exec; the call returns within the horizon; other items and a following Ping are unaffected; nothing planted is followed. " +
 				"non-trivial: the batch mixes successes and failures or contains a planted object; distinct = (batch, per-item outcome)",
 			Bound:       map[string]any{"max_len": maxLen, "classes": len(c14classes), "unreachable_path_classes": 8},
@@ -173,7 +173,25 @@ func init() {
 		spec.Init = func() error { devnull(); return nil }
 		spec.Fini = func() { c14pool.drop(); cleanupTmp() }
 		spec.Body = func(x *mc.X) {
-			switch x.Pick("op", "open", "open-many", "symlink", "delete", "open-flag-matrix", "open-unreachable-path") {
+			switch x.Pick("op", "open", "open-many", "symlink", "delete", "open-flag-matrix", "open-unreachable-path", "open-while-a-standard-descriptor-of-the-host-is-free") {
+			case "open-while-a-standard-descriptor-of-the-host-is-free":
+				// a host process started without stdin (or that closed 0, 1 or 2): the kernel hands the lowest free number to the
+				// first descriptor of the reply. Number 0 is as good a descriptor as any other.
+				fd := x.Choose(3, "free-descriptor")
+				shape := x.Choose(3, "batch")
+				if x.Dry() {
+					return
+				}
+				failing := 0
+				for i, cl := range c14classes {
+					if cl.fails && cl.plant == nil {
+						failing = i
+						break
+					}
+				}
+				c14freeFd = fd
+				defer func() { c14freeFd = -1 }()
+				c14open(x, [][]int{{0}, {0, failing, 0}, {failing, 0}}[shape])
 			case "open-unreachable-path":
 				k := x.Choose(len(c14all)-c14parentStart, "unreachable")
 				pos := x.Choose(3, "position")
@@ -251,6 +269,9 @@ func c14env(x *mc.X) (container.Environment, string, bool) {
 // classes already seen to block the call in this worker: every further batch containing one would cost a whole horizon
 var c14blocking = map[string]string{} // group → the batch first seen to block (that batch itself is still re-run)
 
+// descriptor number of the host process that is free while the next Open runs (-1: none)
+var c14freeFd = -1
+
 func c14open(x *mc.X, batch []int) {
 	for _, ci := range batch {
 		if first, ok := c14blocking[c14group(c14all[ci])]; ok && len(batch) > 1 && first != fmt.Sprint(batch) {
@@ -277,6 +298,15 @@ func c14open(x *mc.X, batch []int) {
 	x.Note("open-batch", names)
 	var res []container.OpenCmdResult
 	var err error
+	if c14freeFd >= 0 {
+		x.Note("free-host-descriptor", c14freeFd)
+		saved, e := unix.FcntlInt(uintptr(c14freeFd), unix.F_DUPFD_CLOEXEC, 64)
+		if e == nil {
+			unix.Close(c14freeFd)
+			// runs after the results have been closed (deferred later): the number is given back to what it was
+			defer func(fd int) { unix.Dup2(saved, fd); unix.Close(saved) }(c14freeFd)
+		}
+	}
 	returned := withTimeout(horizon, func() { res, err = c.Open(cmds) })
 	ctx := fmt.Sprintf("Open batch %v", names)
 	if !returned {
@@ -369,8 +399,8 @@ func c14open(x *mc.X, batch []int) {
 		x.Failf("C14/open/protocol-affected", "%s: the following request failed: %v", ctx, perr)
 		c14pool.drop()
 	}
-	if mixed {
-		x.Distinct(fmt.Sprint(names, outcome))
+	if mixed || c14freeFd >= 0 {
+		x.Distinct(fmt.Sprint(names, outcome, c14freeFd))
 	}
 	x.Outcome("open:" + outcome)
 }
